@@ -15,6 +15,10 @@ macro_rules! int_list { ($f:ident, $T:ty) => { group_fn! { $f; args; { let a: $T
     "Integer::div_mod_floor" => Integer::div_mod_floor(&a, &b),
     "Integer::gcd" => Integer::gcd(&a, &b),
     "Integer::lcm" => Integer::lcm(&a, &b),
+    "Integer::gcd_lcm" => Integer::gcd_lcm(&a, &b),
+    "Integer::div_ceil" => Integer::div_ceil(&a, &b),
+    "Integer::next_multiple_of" => Integer::next_multiple_of(&a, &b),
+    "Integer::prev_multiple_of" => Integer::prev_multiple_of(&a, &b),
     "Integer::is_multiple_of" => Integer::is_multiple_of(&a, &b),
     "Integer::divides" => Integer::divides(&a, &b),
     "Integer::is_even" => Integer::is_even(&a),
